@@ -322,7 +322,12 @@ def run(chk: core.Check):
         if nf == 0 and cid % 3:
             text = "@article{key%d}\n" % cid             # an entry written without comma and fields
         text += "@misc{by%d}\n@misc{by%db,}\n" % (cid, cid)  # bystanders: entries nobody operates on
-        lib = bib.parse_string(text)
+        try:
+            lib = bib.parse_string(text)
+        except Exception as ex:  # noqa: the text is plain and well-formed; an exception here comes from state left by earlier histories
+            chk.mismatch("bystander_views", {"kind": "history", "case": {"id": cid, "text": text}, "bystander": "a later parse"},
+                         f"parse_string raised {type(ex).__name__}: {ex}", "entries of a new parse start from the text alone", kind="entry_history")
+            continue
         if len(lib.entries) != 3:
             raise core.MachineryError("C19 generator produced an unparsable entry: " + text)
         e = lib.entries[0]
@@ -377,7 +382,13 @@ def run(chk: core.Check):
             case["ev"].append(ev)
         cases.append(case)
         # ... and an entry parsed afterwards from the same kind of text starts empty
-        for b in bib.parse_string("@misc{later%d}\n@misc{later%db,}" % (cid, cid)).entries:
+        try:
+            later = bib.parse_string("@misc{later%d}\n@misc{later%db,}" % (cid, cid)).entries
+        except Exception as ex:  # noqa
+            chk.mismatch("bystander_views", {"kind": "history", "case": case, "bystander": "entry parsed afterwards"},
+                         f"parse_string raised {type(ex).__name__}: {ex}", "an entry written without fields has none", kind="entry_history")
+            later = []
+        for b in later:
             if b.fields or b.fields_dict or len(list(b.items())) != 2:
                 chk.mismatch("bystander_views", {"kind": "history", "case": case, "bystander": "entry parsed afterwards"},
                              {"fields": [f.key for f in b.fields]}, "an entry written without fields has none", kind="entry_history")
@@ -397,7 +408,12 @@ def run(chk: core.Check):
         chk.note_case(("hist", c["id"], len(c["ev"])))
 
     # ---- T3: equality on parsed blocks -------------------------------------
-    lib = bib.parse_string(SAMPLE_DOC)
+    try:
+        lib = bib.parse_string(SAMPLE_DOC)
+    except Exception as ex:  # noqa: a plain, well-formed document; an exception here comes from state the histories above left behind
+        chk.mismatch("bystander_views", {"kind": "history", "case": {"text": SAMPLE_DOC[:200]}, "bystander": "a later parse of another document"},
+                     f"parse_string raised {type(ex).__name__}: {ex}", "a parse depends on its text alone", kind="entry_history")
+        return
     pairs = []
     objs = [b for b in lib.blocks if not isinstance(b, model.ParsingFailedBlock)]
     objs += [f for b in lib.entries for f in b.fields]
